@@ -1451,15 +1451,13 @@ aiff_write_header (SF_PRIVATE *psf, int calc_length)
 	if (psf->channel_map && paiff->chanmap_tag)
 		psf_binheader_writef (psf, "Em4444", BHWm (CHAN_MARKER), BHW4 (12), BHW4 (paiff->chanmap_tag), BHW4 (0), BHW4 (0)) ;
 
-	/* Check if there's a INST chunk to write */
-	if (psf->instrument != NULL && psf->cues != NULL)
-	{	/* Huge chunk of code removed here because it had egregious errors that were
-		** not detected by either the compiler or the tests. It was found when updating
-		** the way psf_binheader_writef works.
-		*/
-		}
-	else if (psf->instrument == NULL && psf->cues != NULL)
-	{	/* There are cues but no loops */
+	/* The code that wrote an INST chunk (and the loop markers that go with it) was removed
+	** because it had egregious errors that were not detected by either the compiler or the
+	** tests. Instrument data is therefore not stored, but that is no reason to drop the cue
+	** points as well.
+	*/
+	if (psf->cues != NULL)
+	{	/* Write the cues as a MARK chunk. */
 		uint32_t idx ;
 		int totalStringLength = 0, stringLength ;
 
